@@ -3,9 +3,12 @@
 mod c01;
 mod c02;
 mod c04;
+mod c06;
 mod c08;
 mod c10;
 mod c13;
+mod c14;
+mod c15;
 mod fd;
 mod monitor;
 mod prng;
@@ -80,9 +83,12 @@ fn main() {
         "C01" => c01::run(mk("C01")),
         "C02" => c02::run(mk("C02")),
         "C04" => c04::run(mk("C04")),
+        "C06" => c06::run(mk("C06")),
         "C08" => c08::run(mk("C08")),
         "C10" => c10::run(mk("C10")),
         "C13" => c13::run(mk("C13")),
+        "C14" => c14::run(mk("C14")),
+        "C15" => c15::run(mk("C15")),
         _ => {
             eprintln!("unknown property {id}");
             2
